@@ -17,44 +17,58 @@ Tol == 20    \* micro-units: rounding of two fixed-point conversions plus slack
 
 AbsI(x) == IF x < 0 THEN -x ELSE x
 
-(* --- facts about one solution path --- *)
-PathIsReal(r, s) ==
-    /\ s.n >= 1                                   \* never an empty path
-    /\ s.startOk                                  \* starts at a valid, in-bounds start state
-    /\ s.inBounds                                 \* every state within the bounds
-    /\ s.vertsValid                               \* every vertex valid
-    /\ s.run <= 2 * r.res                         \* no invalid stretch longer than 2 x resolution
-    /\ (r.pairs => s.pairsOk)                     \* individually validated motions pass again
-    (* model side: the cells the path runs through form a walk in the free 8-connected *)
-    (* graph that starts in the start cell                                              *)
-    /\ (~s.cellsTruncated =>
-            /\ IsFreeWalk(r.W, r.H, r.obst, s.cells)
-            /\ Len(s.cells) >= 1 /\ s.cells[1] = r.start
-            /\ s.cells[Len(s.cells)] \in Reach(r.W, r.H, r.obst, r.start))
+(* Every clause has a name so that a rejected report says which clause failed. *)
+SolClauses == {"nonempty", "startsAtStart", "inBounds", "verticesValid", "invalidRun",
+               "pairsRecheck", "cellWalk", "exactEndsInGoal", "approxDifference", "exactEndsInGoalCell"}
 
-GoalFlagsAgree(r, s) ==
-    /\ (~s.approx => s.endInGoal)                 \* exact solutions end inside the goal region
-    /\ (s.approx =>                               \* approximate: difference describes the last state
-            \/ AbsI(s.diff - s.endDist) <= Tol
-            \/ AbsI(s.diff - (IF s.endDist > r.thrMicro THEN s.endDist - r.thrMicro ELSE 0)) <= Tol)
-    /\ (~s.approx /\ r.thr = "tiny" /\ ~s.cellsTruncated => s.cells[Len(s.cells)] = r.goal)
+SolClause(c, r, s) ==
+    CASE c = "nonempty" -> s.n >= 1                      \* never an empty path
+      [] c = "startsAtStart" -> s.startOk                 \* starts at a valid, in-bounds start state
+      [] c = "inBounds" -> s.inBounds                     \* every state within the bounds
+      [] c = "verticesValid" -> s.vertsValid              \* every vertex valid
+      [] c = "invalidRun" -> s.run <= 2 * r.res           \* no invalid stretch longer than 2 x resolution
+      [] c = "pairsRecheck" -> (r.pairs => s.pairsOk)     \* individually validated motions pass again
+      (* model side: the cells the path runs through form a walk in the free 8-connected *)
+      (* graph that starts in the start cell                                              *)
+      [] c = "cellWalk" -> (~s.cellsTruncated /\ s.n >= 1 =>
+                               /\ IsFreeWalk(r.W, r.H, r.obst, s.cells)
+                               /\ Len(s.cells) >= 1 /\ s.cells[1] = r.start
+                               /\ s.cells[Len(s.cells)] \in Reach(r.W, r.H, r.obst, r.start))
+      [] c = "exactEndsInGoal" -> (~s.approx => s.endInGoal)
+      [] c = "approxDifference" ->                        \* the difference describes the last state
+             (s.approx =>
+                 \/ AbsI(s.diff - s.endDist) <= Tol
+                 \/ AbsI(s.diff - (IF s.endDist > r.thrMicro THEN s.endDist - r.thrMicro ELSE 0)) <= Tol)
+      [] c = "exactEndsInGoalCell" ->
+             (~s.approx /\ r.thr = "tiny" /\ ~s.cellsTruncated /\ Len(s.cells) >= 1
+                  => s.cells[Len(s.cells)] = r.goal)
 
-SolutionOK(r, s) == PathIsReal(r, s) /\ GoalFlagsAgree(r, s)
+FailedSol(r, s) == {c \in SolClauses : ~SolClause(c, r, s)}
+SolutionOK(r, s) == FailedSol(r, s) = {}
 
 (* --- the report of a first solve() on a fresh problem definition --- *)
-FirstSolveOK(r) ==
-    /\ r.status \in SolutionStatuses \cup NonSolutionStatuses
-    /\ r.nBefore = 0
-    /\ Len(r.sols) = r.nAfter
-    /\ (r.status \in SolutionStatuses => r.nAfter >= 1)
-    /\ (r.status \notin SolutionStatuses => r.nAfter = 0)        \* non-solution status adds no path
-    /\ \A i \in 1..Len(r.sols) : SolutionOK(r, r.sols[i])
-    (* status, approximate flag of the reported (top-ranked) solution agree *)
-    /\ (r.status = "EXACT" => ~r.sols[1].approx)
-    /\ (r.status = "APPROXIMATE" => r.sols[1].approx)
-    (* model-determined facts *)
-    /\ (r.status = "INVALID_START" => r.start \in r.obst)
-    /\ (r.status = "INVALID_GOAL" => r.goal \in r.obst)
-    /\ (r.status = "EXACT" /\ r.thr # "huge" => r.goal \in Reach(r.W, r.H, r.obst, r.start))
-    /\ (r.start \in r.obst => r.status \notin SolutionStatuses)
+CallClauses == {"knownStatus", "freshDefinition", "solutionCount", "solutionStatusHasPath",
+                "nonSolutionAddsNothing", "exactTopNotApprox", "approxTopIsApprox",
+                "invalidStartOnlyIfInvalid", "invalidGoalOnlyIfInvalid", "exactOnlyIfReachable",
+                "noSolutionFromInvalidStart"}
+
+CallClause(c, r) ==
+    CASE c = "knownStatus" -> r.status \in SolutionStatuses \cup NonSolutionStatuses
+      [] c = "freshDefinition" -> r.nBefore = 0
+      [] c = "solutionCount" -> Len(r.sols) = r.nAfter
+      [] c = "solutionStatusHasPath" -> (r.status \in SolutionStatuses => r.nAfter >= 1)
+      [] c = "nonSolutionAddsNothing" -> (r.status \notin SolutionStatuses => r.nAfter = r.nBefore)
+      [] c = "exactTopNotApprox" -> (r.status = "EXACT" /\ Len(r.sols) >= 1 => ~r.sols[1].approx)
+      [] c = "approxTopIsApprox" -> (r.status = "APPROXIMATE" /\ Len(r.sols) >= 1 => r.sols[1].approx)
+      (* model-determined facts *)
+      [] c = "invalidStartOnlyIfInvalid" -> (r.status = "INVALID_START" => r.start \in r.obst)
+      [] c = "invalidGoalOnlyIfInvalid" -> (r.status = "INVALID_GOAL" => r.goal \in r.obst)
+      [] c = "exactOnlyIfReachable" ->
+             (r.status = "EXACT" /\ r.thr # "huge" => r.goal \in Reach(r.W, r.H, r.obst, r.start))
+      [] c = "noSolutionFromInvalidStart" -> (r.start \in r.obst => r.status \notin SolutionStatuses)
+
+FailedFirstSolve(r) ==
+    {c \in CallClauses : ~CallClause(c, r)}
+        \cup UNION {FailedSol(r, r.sols[i]) : i \in 1..Len(r.sols)}
+FirstSolveOK(r) == FailedFirstSolve(r) = {}
 ==============================================================================
